@@ -179,6 +179,7 @@ func doReadOn(d *fileDesc, rs readSpec, shared *mcap.Reader) wl.Ev {
 	mds := 0
 	end, why := "", ""
 	usedIndex := false
+	mdsMatch := "none"
 	func() {
 		defer func() {
 			if p := recover(); p != nil {
@@ -236,6 +237,7 @@ func doReadOn(d *fileDesc, rs readSpec, shared *mcap.Reader) wl.Ev {
 			}
 		}
 		mds = len(mdl)
+		mdsMatch = mdMatch(d, mdl)
 	}()
 	e["ids"] = ids
 	e["inexact"] = inexact
@@ -246,7 +248,77 @@ func doReadOn(d *fileDesc, rs readSpec, shared *mcap.Reader) wl.Ev {
 	e["capKiB"] = capMax / 1024
 	e["mds"] = mds
 	e["indexed"] = usedIndex
+	e["mdsMatch"] = mdsMatch
 	return e
+}
+
+// mdMatch compares what the metadata callback received (as a multiset of exact records) with all metadata records of
+// the file ("all") and with those that have a metadata index entry ("indexed"); "both" when the two coincide.
+func mdMatch(d *fileDesc, got []any) string {
+	canon := func(name string, m map[string]string) string {
+		keys := make([]string, 0, len(m))
+		for k := range m {
+			keys = append(keys, k)
+		}
+		sort.Strings(keys)
+		s := fmt.Sprintf("%q", name)
+		for _, k := range keys {
+			s += fmt.Sprintf("|%q=%q", k, m[k])
+		}
+		return s
+	}
+	recCanon := func(r *refmcap.Rec) string {
+		m := map[string]string{}
+		for _, kv := range r.Map {
+			m[string(kv.K)] = string(kv.V)
+		}
+		return canon(string(r.Name), m)
+	}
+	all := map[string]int{}
+	idx := map[string]int{}
+	byPos := map[uint64]*refmcap.Rec{}
+	for _, r := range d.file.Recs {
+		if r.Op == refmcap.OpMetadata && r.OK {
+			all[recCanon(r)]++
+			byPos[r.Pos] = r
+		}
+	}
+	for _, r := range d.file.Recs {
+		if r.Op == refmcap.OpMetadataIndex && r.OK {
+			if m := byPos[r.Offset]; m != nil {
+				idx[recCanon(m)]++
+			}
+		}
+	}
+	have := map[string]int{}
+	for _, g := range got {
+		if raw, ok := g.(map[string]any); ok {
+			if c, ok := raw["canon"].(string); ok {
+				have[c]++
+			}
+		}
+	}
+	eq := func(a, b map[string]int) bool {
+		if len(a) != len(b) {
+			return false
+		}
+		for k, v := range a {
+			if b[k] != v {
+				return false
+			}
+		}
+		return true
+	}
+	ma, mi := eq(have, all), eq(have, idx)
+	switch {
+	case ma && mi:
+		return "both"
+	case ma:
+		return "all"
+	case mi:
+		return "indexed"
+	}
+	return "none"
 }
 
 func exactTriple(d *fileDesc, mid int, s *mcap.Schema, c *mcap.Channel, m *mcap.Message) bool {
@@ -315,8 +387,101 @@ func sessionEvents(d *fileDesc, ops []string, r *rand.Rand, sid int) []wl.Ev {
 	return out
 }
 
+// infoExact counts the items Info lists that equal a record of the file's summary section exactly (C08: "Info lists every
+// channel, schema, chunk, attachment index and metadata index of the file", and the statistics).
+func infoExact(d *fileDesc, info *mcap.Info) map[string]any {
+	out := map[string]any{"xChannels": 0, "xSchemas": 0, "xChunkIdx": 0, "xAttIdx": 0, "xMdIdx": 0, "xStats": true}
+	inSummary := false
+	nCh, nSc, nCi, nAi, nMi := 0, 0, 0, 0, 0
+	var stats *refmcap.Rec
+	usedCi := map[int]bool{}
+	usedAi := map[int]bool{}
+	usedMi := map[int]bool{}
+	for _, r := range d.file.Recs {
+		if r.Op == refmcap.OpDataEnd {
+			inSummary = true
+			continue
+		}
+		if !inSummary || !r.OK {
+			continue
+		}
+		switch r.Op {
+		case refmcap.OpChannel:
+			if c := info.Channels[r.ID]; c != nil && c.ID == r.ID && c.SchemaID == r.SchemaID && c.Topic == string(r.Topic) && c.MessageEncoding == string(r.MsgEncoding) && len(c.Metadata) == len(r.Map) {
+				same := true
+				for _, kv := range r.Map {
+					if c.Metadata[string(kv.K)] != string(kv.V) {
+						same = false
+					}
+				}
+				if same {
+					nCh++
+				}
+			}
+		case refmcap.OpSchema:
+			if sc := info.Schemas[r.ID]; sc != nil && sc.ID == r.ID && sc.Name == string(r.Name) && sc.Encoding == string(r.Encoding) && bytes.Equal(sc.Data, r.Data) {
+				nSc++
+			}
+		case refmcap.OpChunkIndex:
+			for i, x := range info.ChunkIndexes {
+				if usedCi[i] || x.MessageStartTime != r.StartTime || x.MessageEndTime != r.EndTime || x.ChunkStartOffset != r.ChunkStart || x.ChunkLength != r.ChunkLen ||
+					x.MessageIndexLength != r.MsgIdxLen || string(x.Compression) != string(r.Compression) || x.CompressedSize != r.CSize || x.UncompressedSize != r.USize ||
+					len(x.MessageIndexOffsets) != len(r.Offsets) {
+					continue
+				}
+				same := true
+				for _, o := range r.Offsets {
+					if v, ok := x.MessageIndexOffsets[o.Ch]; !ok || v != o.Val {
+						same = false
+					}
+				}
+				if same {
+					usedCi[i] = true
+					nCi++
+					break
+				}
+			}
+		case refmcap.OpAttachmentIndex:
+			for i, x := range info.AttachmentIndexes {
+				if !usedAi[i] && x.Offset == r.Offset && x.Length == r.Length && x.LogTime == r.LogTime && x.CreateTime == r.CreateTime && x.DataSize == r.DataSize &&
+					x.Name == string(r.Name) && x.MediaType == string(r.MediaType) {
+					usedAi[i] = true
+					nAi++
+					break
+				}
+			}
+		case refmcap.OpMetadataIndex:
+			for i, x := range info.MetadataIndexes {
+				if !usedMi[i] && x.Offset == r.Offset && x.Length == r.Length && x.Name == string(r.Name) {
+					usedMi[i] = true
+					nMi++
+					break
+				}
+			}
+		case refmcap.OpStatistics:
+			stats = r
+		}
+	}
+	out["xChannels"], out["xSchemas"], out["xChunkIdx"], out["xAttIdx"], out["xMdIdx"] = nCh, nSc, nCi, nAi, nMi
+	if st := info.Statistics; st != nil && stats != nil {
+		ok := st.MessageCount == stats.MsgCount && st.SchemaCount == stats.SchemaCount && st.ChannelCount == stats.ChannelCount && st.AttachmentCount == stats.AttCount &&
+			st.MetadataCount == stats.MdCount && st.ChunkCount == stats.ChunkCount && st.MessageStartTime == stats.StartTime && st.MessageEndTime == stats.EndTime &&
+			len(st.ChannelMessageCounts) == len(stats.PerChannel)
+		for _, pc := range stats.PerChannel {
+			if st.ChannelMessageCounts[pc.Ch] != pc.Val {
+				ok = false
+			}
+		}
+		out["xStats"] = ok
+	} else {
+		out["xStats"] = (info.Statistics == nil) == (stats == nil)
+	}
+	return out
+}
+
 func infoEventOn(d *fileDesc, shared *mcap.Reader) (e wl.Ev) {
-	e = wl.Ev{"ev": "Info", "ret": "ok", "nChannels": 0, "nSchemas": 0, "nChunkIdx": 0, "nAttIdx": 0, "nMdIdx": 0, "attOK": 0, "mdOK": 0, "hasStats": false, "msgs": 0, "why": ""}
+	e = wl.Ev{"ev": "Info", "ret": "ok", "nChannels": 0, "nSchemas": 0, "nChunkIdx": 0, "nAttIdx": 0, "nMdIdx": 0, "attOK": 0, "mdOK": 0, "hasStats": false, "msgs": 0, "why": "",
+		"xChannels": 0, "xSchemas": 0, "xChunkIdx": 0, "xAttIdx": 0, "xMdIdx": 0, "xStats": true}
 	defer func() {
 		if p := recover(); p != nil {
 			e["ret"], e["why"] = "panic", fmt.Sprint(p)
@@ -341,6 +506,11 @@ func infoEventOn(d *fileDesc, shared *mcap.Reader) (e wl.Ev) {
 	e["nAttIdx"], e["nMdIdx"] = len(info.AttachmentIndexes), len(info.MetadataIndexes)
 	if info.Statistics != nil {
 		e["hasStats"], e["msgs"] = true, info.Statistics.MessageCount
+	}
+	// every listed item is compared, field by field, with the summary record of the decoded file it must stand for
+	ex := infoExact(d, info)
+	for k, v := range ex {
+		e[k] = v
 	}
 	if shared != nil { // inside a session the records are not fetched: the counts are what is judged
 		e["attOK"], e["mdOK"] = len(info.AttachmentIndexes), len(info.MetadataIndexes)
@@ -448,8 +618,9 @@ func readSpecs(r *rand.Rand, d *fileDesc, n int, all bool) []readSpec {
 			s, e := pool[i], pool[j]
 			rs.S, rs.E = &s, &e
 		}
-		rs.Form = []string{"nanos", "nanos-rev", "legacy", "legacy-rev"}[r.Intn(4)]
-		if (rs.Form == "legacy" || rs.Form == "legacy-rev") && ((rs.S != nil && *rs.S > math.MaxInt64) || (rs.E != nil && *rs.E > math.MaxInt64)) {
+		rs.Form = []string{"nanos", "nanos-rev", "legacy", "legacy-rev", "mixed-a", "mixed-b"}[r.Intn(6)]
+		bigS, bigE := rs.S != nil && *rs.S > math.MaxInt64, rs.E != nil && *rs.E > math.MaxInt64
+		if ((rs.Form == "legacy" || rs.Form == "legacy-rev") && (bigS || bigE)) || (rs.Form == "mixed-a" && bigS) || (rs.Form == "mixed-b" && bigE) {
 			rs.Form = "nanos"
 		}
 		if rs.Form == "nanos-rev" || rs.Form == "legacy-rev" {
